@@ -9,6 +9,7 @@ import (
 
 	"github.com/energomonitor/bisquitt/topics"
 
+	"verifharness/monitors"
 	"verifharness/rt"
 	"verifharness/snref"
 	"verifharness/world"
@@ -268,5 +269,64 @@ var wlExhaustion = Workload{
 			g.Evs = append(append([]world.Ev{}, g.Evs[:40]...), g.Evs[len(g.Evs)-300:]...)
 		}
 		return g
+	},
+}
+
+func TestC11(t *testing.T) {
+	r := rt.Start(t, "C11")
+	runWorkloads(t, r, []Workload{wlSleep, wlSleepRacy}, func(g *GWRun) ([]monitors.V, int) {
+		return monitors.C11(g.Items, toPredef(g.Cfg.Predefined))
+	})
+	r.Finish("workload sleep: CONNECT, SUBSCRIBE '#', then 1-4 sleep cycles (sleep durations {KA/2, KA-1, KA, KA+1, 2KA, 10KA}, keep-alive {5,10,60}) with 0-3 broker publishes (QoS 0-2; short, predefined, registered and new topics; unique payloads) at random instants inside each window, wake-up by PINGREQ, optionally a publish right after the wake-up, optionally CONNECT back to active; lock-step. Workload sleep-racy: the same with the publish injected at the same virtual instant as the sleep DISCONNECT or the PINGREQ without waiting for quiescence (the two receive loops race), repeated. Oracle from the wire: (a) no datagram to the client inside a sleep window (from the gateway's DISCONNECT ack, and again from each wake-up's PINGRESP, until the next PINGREQ/CONNECT/DISCONNECT); (b) every broker message that arrived while asleep is delivered exactly once (DUP retransmissions aside) within the next wake-up (two when a REGISTER round trip is needed), messages that need no registration in broker order. Non-trivial = at least one window or buffered message was checked.", nil)
+}
+
+// wlSleepRacy: broker publishes injected at the very instant of the sleep DISCONNECT / the waking PINGREQ.
+var wlSleepRacy = Workload{
+	Name: "sleep-racy",
+	N:    func(r *rt.Run) int { return r.N(1500, 30000) },
+	Run: func(t *testing.T, c *rt.Case, i int, rng *rand.Rand) *GWRun {
+		ka := uint16(10)
+		steps := []Step{snStep(snref.Connect("cl", ka, false, true)), snStep(snref.SubscribeName(2, 1, "#"))}
+		tag := 0
+		pub := func(nowait bool) Step {
+			tag++
+			topic := []string{"ab", "pre/one", "cd"}[rng.Intn(3)]
+			s := pubStep(topic, byte(rng.Intn(3)), false, fmt.Sprintf("r%d-%d", c.I, tag))
+			s.NoWait = nowait
+			return s
+		}
+		for cy := 0; cy < 1+rng.Intn(3); cy++ {
+			sl := snStep(snref.Sleep(20))
+			switch rng.Intn(3) {
+			case 0: // publish and sleep request at the same instant, either order
+				sl.NoWait = true
+				if rng.Intn(2) == 0 {
+					steps = append(steps, sl, pub(false))
+				} else {
+					steps = append(steps, pub(true), snStep(snref.Sleep(20)))
+				}
+			default:
+				steps = append(steps, sl)
+			}
+			steps = append(steps, advStep(time.Second), pub(false), advStep(time.Second))
+			pr := snStep(snref.Pingreq("cl"))
+			switch rng.Intn(3) {
+			case 0: // publish racing with the wake-up
+				if rng.Intn(2) == 0 {
+					pr.NoWait = true
+					steps = append(steps, pr, pub(false))
+				} else {
+					steps = append(steps, pub(true), pr)
+				}
+			case 1:
+				pr.NoWait = true
+				steps = append(steps, pr, pub(true), pub(false))
+			default:
+				steps = append(steps, pr)
+			}
+			steps = append(steps, advStep(time.Second))
+		}
+		steps = append(steps, snStep(snref.Pingreq("cl")), advStep(time.Second), snStep(snref.Pingreq("cl")), advStep(time.Second))
+		return runScript(t, c, world.GWConfig{Predefined: stdPredefined(), RetryCount: 1, RetryDelay: 100 * time.Second}, world.BrokerCfg{FirstID: 30000}, PeerOpts{}, steps, 2*time.Second, nil)
 	},
 }
